@@ -920,7 +920,7 @@ class Interp:
         while ee is not None:
             hv = ee.vars.get("__havoced__")
             if hv and e.id in hv:
-                self.ctx.oblige(f"{self.ctx.ghost.get('prefix', '?')}/inv:{hv[e.id]}:variable-{e.id}-is-carried-across-iterations-but-not-described-by-the-loop-invariant", False, (), "inv")
+                self.ctx.oblige(f"{self.ctx.ghost.get('prefix', '?')}/inv:{hv[e.id]}:variable-{e.id}-is-carried-across-iterations-but-not-described-by-the-loop-invariant", False, (), "inv-form")
                 raise PathEnd("value not described by the loop invariant")
             ee = ee.parent
         # definite assignment: a local that is assigned somewhere in the function but not on this path
